@@ -381,7 +381,11 @@ def parts(tier):
     from vp import gen as GEN
     sim = Part('in-simulation', check_in_simulation, strategy=GEN.s_case(max_len=6, max_steps=20, histories=('run',)),
                examples=60 if tier == 'quick' else 800, shards=4 if tier == 'quick' else 8)
-    return _parts(tier) + [sim]
+    from vp import golden
+    gold = Part('golden', lambda c: golden.check_golden(c, ID, columns=('tangential force', 'bending stress',
+                                                                        'contact stress')),
+                enumerate=lambda: iter([{'golden': 'example-7'}]), chunk=1)
+    return _parts(tier) + [sim, gold]
 
 
 def _parts(tier):
